@@ -112,9 +112,8 @@ pub enum Op {
 impl Op {
     pub(super) fn collect_parameters(&self, parameters: &mut HashMap<String, Option<Term>>) {
         match self {
-            Op::Value(Term::Parameter(ref name)) => {
-                parameters.insert(name.to_owned(), None);
-            }
+            // also finds the parameters nested in collections
+            Op::Value(term) => term.extract_parameters(parameters),
             Op::Closure(_, ops) => {
                 for op in ops {
                     op.collect_parameters(parameters);
@@ -126,14 +125,8 @@ impl Op {
 
     pub(super) fn apply_parameters(self, parameters: &HashMap<String, Option<Term>>) -> Self {
         match self {
-            Op::Value(Term::Parameter(ref name)) => {
-                if let Some(Some(t)) = parameters.get(name) {
-                    Op::Value(t.clone())
-                } else {
-                    self
-                }
-            }
-            Op::Value(_) => self,
+            // also substitutes the parameters nested in collections
+            Op::Value(term) => Op::Value(term.apply_parameters(parameters)),
             Op::Unary(_) => self,
             Op::Binary(_) => self,
             Op::Closure(args, mut ops) => Op::Closure(
